@@ -3,11 +3,78 @@ From Coq Require Import List Bool.
 From DH Require Import Model.JobRun.
 Import ListNotations.
 
-Ltac all_cfg c := destruct c as [s t k g j h kl]; destruct s, t, k, g, j, h, kl; vm_compute; reflexivity.
+(** ** reflection: the finite domains as lists, membership proved structurally (component by component),
+    statements over all configurations / variants decided by ONE vm_compute each and lifted with forallb_forall *)
+Lemma in_all_src s : In s all_src. Proof. destruct s; cbn; auto. Qed.
+Lemma in_all_tr t : In t all_tr. Proof. destruct t; cbn; auto 6. Qed.
+Lemma in_all_snk k : In k all_snk. Proof. destruct k; cbn; auto. Qed.
+Lemma in_all_trig g : In g all_trig. Proof. destruct g; cbn; auto. Qed.
+Lemma in_all_jt j : In j all_jt. Proof. destruct j; cbn; auto. Qed.
+Lemma in_all_h h : In h all_h. Proof. destruct h; cbn; auto 7. Qed.
+Lemma in_bools (b : bool) : In b [false; true]. Proof. destruct b; cbn; auto. Qed.
+
+(** every configuration record (kill also with sources that cannot be killed in the driver) *)
+Definition all_cfgs_full : list cfg :=
+  flat_map (fun s => flat_map (fun t => flat_map (fun k => flat_map (fun g => flat_map (fun j =>
+  flat_map (fun h => map (fun kl =>
+    {| c_src := s; c_tr := t; c_snk := k; c_trig := g; c_jt := j; c_h := h; c_kill := kl |})
+    [false; true])
+  all_h) all_jt) all_trig) all_snk) all_tr) all_src.
+
+Lemma in_all_cfgs_full (c : cfg) : In c all_cfgs_full.
+Proof.
+  destruct c as [s t k g j h kl]. unfold all_cfgs_full.
+  apply in_flat_map. exists s. split; [apply in_all_src|].
+  apply in_flat_map. exists t. split; [apply in_all_tr|].
+  apply in_flat_map. exists k. split; [apply in_all_snk|].
+  apply in_flat_map. exists g. split; [apply in_all_trig|].
+  apply in_flat_map. exists j. split; [apply in_all_jt|].
+  apply in_flat_map. exists h. split; [apply in_all_h|].
+  apply in_map_iff. exists kl. split; [reflexivity | apply in_bools].
+Qed.
+
+(** the lattice of the driver: kill only with the slow source *)
+Lemma in_all_cfgs (c : cfg) : (c_kill c = true -> c_src c = SSlow) -> In c all_cfgs.
+Proof.
+  destruct c as [s t k g j h kl]. cbn [c_kill c_src]. intros Hk. unfold all_cfgs.
+  apply in_flat_map. exists s. split; [apply in_all_src|].
+  apply in_flat_map. exists t. split; [apply in_all_tr|].
+  apply in_flat_map. exists k. split; [apply in_all_snk|].
+  apply in_flat_map. exists g. split; [apply in_all_trig|].
+  apply in_flat_map. exists j. split; [apply in_all_jt|].
+  apply in_flat_map. exists h. split; [apply in_all_h|].
+  apply in_map_iff. exists kl. split; [reflexivity|].
+  destruct kl; [rewrite (Hk eq_refl); cbn; auto | destruct s; cbn; auto].
+Qed.
+
+Definition all_jv : list jvariant :=
+  flat_map (fun a => flat_map (fun b => flat_map (fun c => flat_map (fun d => map (fun e =>
+    {| fix_endctx := a; fix_verify := b; fix_panic := c; fix_chunk := d; fix_clone := e |})
+    [false; true]) [false; true]) [false; true]) [false; true]) [false; true].
+
+Lemma in_all_jv (v : jvariant) : In v all_jv.
+Proof.
+  destruct v as [a b c d e]. unfold all_jv.
+  apply in_flat_map. exists a. split; [apply in_bools|].
+  apply in_flat_map. exists b. split; [apply in_bools|].
+  apply in_flat_map. exists c. split; [apply in_bools|].
+  apply in_flat_map. exists d. split; [apply in_bools|].
+  apply in_map_iff. exists e. split; [reflexivity | apply in_bools].
+Qed.
+
+Lemma all_cfg_bool (P : cfg -> bool) : forallb P all_cfgs_full = true -> forall c, P c = true.
+Proof. intros H c. exact (proj1 (forallb_forall _ _) H c (in_all_cfgs_full c)). Qed.
+
+Lemma all_jv_cfg_bool (P : jvariant -> cfg -> bool) :
+  forallb (fun v => forallb (P v) all_cfgs_full) all_jv = true -> forall v c, P v c = true.
+Proof.
+  intros H v c. pose proof (proj1 (forallb_forall _ _) H v (in_all_jv v)) as Hv.
+  exact (proj1 (forallb_forall _ _) Hv c (in_all_cfgs_full c)).
+Qed.
 
 (** repaired variant: every configuration (not only those of the lattice) *)
 Lemma outcome_fixed_all (c : cfg) : good_out (run_job jfixed c) = true.
-Proof. all_cfg c. Qed.
+Proof. revert c. apply all_cfg_bool. vm_compute. reflexivity. Qed.
 
 Lemma lattice_fixed : forallb (fun c => good_out (run_job jfixed c)) all_cfgs = true.
 Proof. vm_compute. reflexivity. Qed.
@@ -34,13 +101,16 @@ Qed.
 
 (** pinned tree: exact set of accepted configurations whose run kills the process *)
 Lemma current_char (c : cfg) : good_out (run_job jcurrent c) = negb (dies_current c).
-Proof. all_cfg c. Qed.
+Proof.
+  apply eqb_prop. revert c. apply all_cfg_bool. vm_compute. reflexivity.
+Qed.
 
 (** each repair removes its own cause *)
 Lemma no_diverge_when_fixed v c : fix_endctx v = true -> fst (sync v c) <> SDiverge.
 Proof.
-  intros H. destruct v as [a b p q r]. cbn in H. subst a.
-  destruct b, p, q, r; destruct c as [s t k g j h kl]; destruct s, t, k, g, j, h, kl; vm_compute; discriminate.
+  assert (B : forall v c, negb (fix_endctx v) || negb (match fst (sync v c) with SDiverge => true | _ => false end) = true).
+  { apply all_jv_cfg_bool. vm_compute. reflexivity. }
+  intros H Hd. specialize (B v c). rewrite H, Hd in B. discriminate B.
 Qed.
 
 Lemma no_nil_handler_when_fixed v c : fix_verify v = true -> handler_nil v c = false.
@@ -53,7 +123,7 @@ Proof. induction fuel; cbn; auto. Qed.
 Lemma wrapper_fixed : forall fuel, wrapped_end_ctx true (S fuel) = Some tt.
 Proof. reflexivity. Qed.
 
-Ltac solve_in := vm_compute; repeat (first [left; reflexivity | right]).
+Ltac solve_in := apply in_all_cfgs; cbn; discriminate.
 
 (** refutation witnesses (pinned tree) *)
 Definition w_f11a := {| c_src := SDataset; c_tr := TJs; c_snk := KDevNull; c_trig := GCron; c_jt := JIncr; c_h := HLog; c_kill := false |}.
